@@ -65,7 +65,7 @@ def translate(repo, outdir):
 
 
 def gen_cases(rng, tier):
-    n = 4000 if tier == "thorough" else 400
+    n = 1600 if tier == "thorough" else 400  # each case drives real threads step by step: ~0.15 s per case
     cases = []
     for k in range(n):
         ps, mo = rng.choice(CONFIGS)
